@@ -27,8 +27,8 @@ from enum import Enum
 from importlib.metadata import PackageNotFoundError, version
 from typing import Any, Optional
 
-from boolean.boolean import Expression
-from license_expression import Licensing
+from boolean.boolean import Expression, ParseError
+from license_expression import ExpressionError, Licensing
 
 try:
     __version__ = version("reuse")
@@ -43,7 +43,30 @@ __REUSE_version__ = "3.3"
 
 _LOGGER = logging.getLogger(__name__)
 
-_LICENSING = Licensing()
+
+
+class _Licensing(Licensing):
+    """A :class:`Licensing` whose parser fails in one way only.
+
+    On some texts that are no SPDX expression---'()', '( AND MIT'---the parser
+    of the library does not report an invalid expression but fails internally
+    (:class:`IndexError`, :class:`AssertionError`, ...). Whatever goes wrong
+    while a text is parsed, the text is an expression that cannot be parsed.
+    """
+
+    def parse(self, expression: Any, *args: Any, **kwargs: Any) -> Any:
+        try:
+            return super().parse(expression, *args, **kwargs)
+        except (ExpressionError, ParseError):
+            raise
+        # pylint: disable=broad-except
+        except Exception as error:
+            raise ExpressionError(
+                f"Invalid license expression: {expression!r}"
+            ) from error
+
+
+_LICENSING = _Licensing()
 
 
 class SourceType(Enum):
